@@ -86,3 +86,48 @@ Goal exists arrivals,
     generate_crates Proofs.C06MultiWitness.m_ts_gen [] (multi_plan TypeScript (@rev _) (multi_crates (@rev _) (rev arrivals))).
 Proof. exact Props.C06.C06_multi_nonvacuous. Qed.
 Print Assumptions Props.C06.C06_multi_nonvacuous.
+Goal forall (uc : unicode) (ho1 ho2 : list imported -> list imported) (pd : parsed),
+    Proofs.C14Front.oracle_ok ho1 -> Proofs.C14Front.oracle_ok ho2 ->
+    file_import_ambiguous (all_references uc pd) (p_type_names pd) (p_imports pd) = false ->
+    reconcile_referenced_types uc ho1 pd = reconcile_referenced_types uc ho2 pd.
+Proof. exact Props.C06.C06_multi_file_hash_order_irrelevant. Qed.
+Print Assumptions Props.C06.C06_multi_file_hash_order_irrelevant.
+Goal forall (uc : unicode) (T ign : list str) (ho1 ho2 : list imported -> list imported) (ws : list ws_entry),
+    Proofs.C14Front.oracle_ok ho1 -> Proofs.C14Front.oracle_ok ho2 ->
+    forallb (Proofs.C06Multi.file_unambiguous uc T ign) ws = true ->
+    parse_workspace uc T ign ho1 ws = parse_workspace uc T ign ho2 ws.
+Proof. exact Props.C06.C06_multi_workspace_parse_hash_order_irrelevant. Qed.
+Print Assumptions Props.C06.C06_multi_workspace_parse_hash_order_irrelevant.
+Goal forall (uc : unicode) (T ign : list str) tstr own ho f,
+    parse_file_multi uc tstr T own ign ho f =
+    match Proofs.C06Multi.parse_file_pre uc T ign tstr own f with
+    | Ok o => Ok (option_map (reconcile_referenced_types uc ho) o) | Err e => Err e | Panic s => Panic s
+    end.
+Proof. exact Props.C06.C06_multi_parse_file_front_half. Qed.
+Print Assumptions Props.C06.C06_multi_parse_file_front_half.
+Goal forall (uc : unicode) (T ign : list str) (lang : lang) (ws : list ws_entry)
+         (hf1 hf2 ho1 ho2 : list imported -> list imported) (hc1 hc2 : crate_types -> crate_types) (a1 : list (str * parsed)),
+    Proofs.C14Front.oracle_ok hf1 -> Proofs.C14Front.oracle_ok hf2 -> Proofs.C14Front.oracle_ok ho1 -> Proofs.C14Front.oracle_ok ho2 ->
+    Proofs.C14Front.oracle_ok hc1 -> Proofs.C14Front.oracle_ok hc2 ->
+    forallb (Proofs.C06Multi.file_unambiguous uc T ign) ws = true ->
+    parse_workspace uc T ign hf1 ws = Ok a1 ->
+    Proofs.C06Multi.all_distinct (collect a1) -> Proofs.C06Multi.ws_ambiguity (collect a1) = None ->
+    parse_workspace uc T ign hf2 ws = Ok a1 /\
+    forall a2, Permutation a1 a2 ->
+      forall (St : Type) (gen : St -> str -> scoped -> parsed -> outcome (str * St)), Proofs.C06Multi.reads_items gen ->
+        forall st, generate_crates gen st (multi_plan lang hc1 (multi_crates ho1 a1)) =
+                   generate_crates gen st (multi_plan lang hc2 (multi_crates ho2 a2)).
+Proof. exact Props.C06.C06_multi_end_to_end. Qed.
+Print Assumptions Props.C06.C06_multi_end_to_end.
+Goal forallb (Proofs.C06Multi.file_unambiguous uc_exec [] []) Proofs.C06MultiWitness.ws_clean = true /\
+  exists arrivals, parse_workspace uc_exec [] [] (@rev _) Proofs.C06MultiWitness.ws_clean = Ok arrivals /\
+                   Proofs.C06Multi.all_distinct (collect arrivals) /\ Proofs.C06Multi.ws_ambiguity (collect arrivals) = None.
+Proof. exact Props.C06.C06_multi_end_to_end_nonvacuous. Qed.
+Print Assumptions Props.C06.C06_multi_end_to_end_nonvacuous.
+Goal forallb (Proofs.C06Multi.file_unambiguous uc_exec [] []) Proofs.C06MultiWitness.ws_file_amb = false /\
+  Proofs.C06MultiWitness.kept_imports Proofs.C14Witness.idl Proofs.C06MultiWitness.ws_file_amb =
+    [(lit "app", [{| base_crate := lit "alpha"; type_name := lit "Item" |}])] /\
+  Proofs.C06MultiWitness.kept_imports (@rev _) Proofs.C06MultiWitness.ws_file_amb =
+    [(lit "app", [{| base_crate := lit "beta"; type_name := lit "Item" |}])].
+Proof. exact Props.C06.C06_multi_file_ambiguous_refuted. Qed.
+Print Assumptions Props.C06.C06_multi_file_ambiguous_refuted.
